@@ -273,6 +273,10 @@ mut("dynsched_revert_once_cycle_message", "pymtl3/passes/sim/DynamicSchedulePass
     "f\"in 'top.{repr(hosts[y])[2:]}')\" if y in hosts else",
     "f\"in 'top.{repr(top.get_update_block_host_component(y))[2:]}')\" if True else", ["C11"])
 
+mut("tr_revert_same_width_ext_grouping", V1,
+    "      # Nothing to extend, but the operand must stay one operand\n      return s.visit_expr_wrap( node.value )\n    value = s.visit( node.value )\n    return f\"{{ {{ {padded_nbits} {{ 1'b0 }} }}, {value} }}\"",
+    "      return s.visit( node.value )\n    value = s.visit( node.value )\n    return f\"{{ {{ {padded_nbits} {{ 1'b0 }} }}, {value} }}\"", ["C03"])
+
 
 def load_extra():
   p = os.path.join(VERIF, "tools", "mutants_extra.json")
